@@ -307,6 +307,18 @@ def _from_chunk_relative(ctx, B, what, cls, blocks, strand, cs, ce, g):
     ctx.eq(what + ":from_chunk_relative_location:chromosome_positions", rm.loc_positions(X.chromosome_location), inside)
     ctx.eq(what + ":from_chunk_relative_location:chromosome_strand", X.strand.to_symbol(), strand)
     ctx.eq(what + ":from_chunk_relative_location:spliced_sequence", str(X.get_spliced_sequence()), rm.seq_image(g, inside, strand))
+    # ... and it is the same object (identifier, dictionary form, container types included) as one built the ordinary way from the
+    # blocks that lie on the chunk
+    bl_in = [(max(s_, cs), min(e_, ce)) for s_, e_ in sorted(map(tuple, blocks)) if max(s_, cs) < min(e_, ce)]
+    if all(bl_in[i][1] <= bl_in[i + 1][0] for i in range(len(bl_in) - 1)):
+        try:
+            T = cls([b_[0] for b_ in bl_in], [b_[1] for b_ in bl_in], X.strand, parent_or_seq_chunk_parent=crl.parent)
+            dx, dt = X.to_dict(), T.to_dict()
+            ctx.eq(what + ":from_chunk_relative_location:same_guid_as_constructor", str(X.guid), str(T.guid))
+            ctx.eq(what + ":from_chunk_relative_location:same_dict_as_constructor", {k_: (type(v_).__name__, v_ if not isinstance(v_, tuple) else list(v_)) for k_, v_ in dx.items() if k_.endswith(("_starts", "_ends", "strand"))},
+                   {k_: (type(v_).__name__, v_) for k_, v_ in dt.items() if k_.endswith(("_starts", "_ends", "strand"))})
+        except (BioCantorException, ValueError) as e:
+            ctx.fail(what + ":from_chunk_relative_location:twin_raises", repr(e)[:120])
     ctx.label("from_chunk_relative_location")
 
 
@@ -398,6 +410,10 @@ def check_view(spec, ctx):
         ctx.eq("gene:to_dict_without_gene_guid", strip_guids(norm_dict(B.to_dict())), strip_guids(norm_dict(A.to_dict())))
         ctx.eq("gene:guid", str(B.guid), str(A.guid))
         ctx.eq("gene:span", (B.start, B.end), (A.start, A.end))
+        # which member is the primary one is a chromosome-level answer (flag, CDS length, spliced length, position in the list)
+        ctx.eq("gene:primary_transcript", B.transcripts.index(B.get_primary_transcript()), A.transcripts.index(A.get_primary_transcript()))
+        if any(tb.chunk_relative_location.is_empty for tb in B.transcripts) and not all(tb.chunk_relative_location.is_empty for tb in B.transcripts):
+            ctx.label("chunk_misses_some_members")
         ctx.eq("gene:chromosome_location", rm.loc_blocks(B.chromosome_location), rm.loc_blocks(A.chromosome_location))
         for ta, tb, ts in zip(A.transcripts, B.transcripts, o["transcripts"]):
             window_labels(ctx, ts["exons"], cs, ce, ts["strand"])
@@ -414,6 +430,7 @@ def check_view(spec, ctx):
         ctx.nt("collection_on_chunk")
         ctx.eq("feature_collection:to_dict_without_collection_guid", strip_guids(norm_dict(B.to_dict())), strip_guids(norm_dict(A.to_dict())))
         ctx.eq("feature_collection:guid", str(B.guid), str(A.guid))
+        ctx.eq("feature_collection:primary_feature", B.feature_intervals.index(B.get_primary_feature()), A.feature_intervals.index(A.get_primary_feature()))
         for fa, fb, fs in zip(A.feature_intervals, B.feature_intervals, o["features"]):
             check_interval_view(ctx, fa, fb, fs["blocks"], fs["strand"], cs, ce, g, "fc_feature")
     elif kind == "collection":
